@@ -87,7 +87,8 @@ def o2(h):
     f, f_x, f_theta at the root are independent symbols); the Newton/bisection loop is replaced by its contract"""
     from optimism import ScalarRootFind as SR
     h.encoded(SR.find_root, SR.rtsafe_)
-    h.bounds('theta, x0, bracket ends: all reals; f = u(x) w(theta) + z(theta) with u, w, z arbitrary differentiable functions (uninterpreted, '
+    h.bounds('settings: x_tol >= 0 and r_tol >= 0 symbolic (all non-negative reals; separate queries for the J2 combination x_tol = 0 < r_tol and the default r_tol = 0 < x_tol), max_iters = 50',
+             'theta, x0, bracket ends: all reals; f = u(x) w(theta) + z(theta) with u, w, z arbitrary differentiable functions (uninterpreted, '
              "their values and derivatives at the points that occur are free reals); f_x(root, theta) != 0 (the rule divides by it)")
     h.outside('that the loop finds a root (C17)', 'non-bracketed / non-converged calls (result NaN)', *NA)
     h.assume_note('while loop of rtsafe_ replaced by a contract stub (ctx.while_mode hook): returns an arbitrary real r with converged = True; '
@@ -97,11 +98,11 @@ def o2(h):
     def F(x, th):
         return jx.uf(x, 'u', 0) * jx.uf(th, 'w', 0) + jx.uf(th, 'z', 0)
 
-    def root(th, x0, lo, hi):
-        st = SR.get_settings(max_iters=50, x_tol=1e-13, r_tol=0.0)
+    def root(th, x0, lo, hi, xtol, rtol):
+        st = SR.get_settings(max_iters=50, x_tol=xtol, r_tol=rtol)          # the tolerances are traced: the claim quantifies over the settings
         return SR.find_root(lambda x: F(x, th), x0, jnp.array([lo, hi]), st)[0]
 
-    cj = jax.make_jaxpr(lambda th, x0, lo, hi: (root(th, x0, lo, hi), jax.grad(root)(th, x0, lo, hi)))(0.3, 0.5, 0.0, 1.0)
+    cj = jax.make_jaxpr(lambda th, x0, lo, hi, xtol, rtol: (root(th, x0, lo, hi, xtol, rtol), jax.grad(root)(th, x0, lo, hi, xtol, rtol)))(0.3, 0.5, 0.0, 1.0, 1e-13, 0.0)
     nwhile = len(jx.find_eqns(cj.jaxpr, 'while'))
     h.fact('loop_present', nwhile >= 1, '%d while equation(s) in the traced find_root (value and grad)' % nwhile, nontrivial=False)
     ctx = jx.Ctx()
@@ -119,8 +120,8 @@ def o2(h):
             out.append(o)
         return out
     ctx.while_mode['default'] = ('hook', hook)
-    th, x0, lo, hi = z3.Real('theta'), z3.Real('x0'), z3.Real('lo'), z3.Real('hi')
-    rt, g = [s0(o) for o in jx.eval_jaxpr(ctx, cj.jaxpr, cj.consts, th, x0, lo, hi)]
+    th, x0, lo, hi, xtol, rtol = z3.Real('theta'), z3.Real('x0'), z3.Real('lo'), z3.Real('hi'), z3.Real('x_tol'), z3.Real('r_tol')
+    rt, g = [s0(o) for o in jx.eval_jaxpr(ctx, cj.jaxpr, cj.consts, th, x0, lo, hi, xtol, rtol)]
     r = roots[0]
     h.fact('returned_value_is_loop_root', bool(sym.isz(rt) and rt.get_id() == r.get_id()), 'find_root returns the loop result unchanged when converged', nontrivial=False)
     # the oracle partial derivatives of the same family at (r, theta): same uf symbols by hash-consing
@@ -129,29 +130,43 @@ def o2(h):
 
     def ufv(name, order, arg):
         return ctx.ufs[('uf', name, order, jx.term_key(arg))][0]
-    inputs = dict(theta=th, r=r, u0=ufv('u', 0, r), u1=ufv('u', 1, r), w0=ufv('w', 0, th), w1=ufv('w', 1, th), z0=ufv('z', 0, th), z1=ufv('z', 1, th))
-    assumes = ctx.all_side() + ctx.nonzero_denoms() + [fv == 0, fx != 0]
+    inputs = dict(theta=th, r=r, u0=ufv('u', 0, r), u1=ufv('u', 1, r), w0=ufv('w', 0, th), w1=ufv('w', 1, th), z0=ufv('z', 0, th), z1=ufv('z', 1, th),
+                  x_tol=xtol, r_tol=rtol)
+    settings_ok = [xtol >= 0, rtol >= 0]
+    assumes = ctx.all_side() + ctx.nonzero_denoms() + [fv == 0, fx != 0] + settings_ok
 
     def concrete(vals):
-        """real find_root (real loop) on the concrete family that interpolates the model: u, w, z affine with the model's values
-        and slopes at (r, theta)"""
+        """real find_root (real loop, the model's settings) on a concrete family that interpolates the model at (r, theta): w, z affine in theta,
+        u QUADRATIC in x with the model's value and slope at r and curvature 1 (a residual that is nonlinear in x: slope at the root != slope
+        at the initial guess). Both tolerances are scaled by one common factor so that the loop still resolves the root to ~1e-10."""
         v = {k: float(x) for k, x in vals.items()}
 
         def Fc(x, t):
-            return (v['u0'] + v['u1'] * (x - v['r'])) * (v['w0'] + v['w1'] * (t - v['theta'])) + (v['z0'] + v['z1'] * (t - v['theta']))
-        st = SR.get_settings(max_iters=50, x_tol=1e-13, r_tol=0.0)
+            dx = x - v['r']
+            return (v['u0'] + v['u1'] * dx + dx * dx) * (v['w0'] + v['w1'] * (t - v['theta'])) + (v['z0'] + v['z1'] * (t - v['theta']))
+        slope = abs(v['u1'] * v['w0']) + 1e-300
+        fac = min(1.0, 1e-10 * slope / max(v['r_tol'], 1e-300), 1e-10 / max(v['x_tol'], 1e-300))
+        st = SR.get_settings(max_iters=50, x_tol=v['x_tol'] * fac, r_tol=v['r_tol'] * fac)
+        half = 0.25 * slope / max(abs(v['w0']), 1e-300)            # keep the quadratic monotone on the bracket: |2 dx| < |u1|
+        half = min(1.0, half)
 
         def rootc(t):
-            return SR.find_root(lambda x: Fc(x, t), v['r'] + 0.3, jnp.array([v['r'] - 1.0, v['r'] + 1.0]), st)[0]
+            return SR.find_root(lambda x: Fc(x, t), v['r'] + 0.3 * half, jnp.array([v['r'] - half, v['r'] + half]), st)[0]
         rr = float(rootc(v['theta']))
         gg = float(jax.grad(rootc)(v['theta']))
         fxc, ftc = [float(a) for a in jax.grad(Fc, argnums=(0, 1))(rr, v['theta'])]
-        ok = abs(float(Fc(rr, v['theta']))) <= 1e-9 * (1 + abs(v['u0'] * v['w0']) + abs(v['z0'])) and fxc != 0.0 and not math.isnan(rr)
-        return ok, Eq(gg * fxc, -ftc, scale=abs(fxc) + abs(ftc)), dict(root=rr, grad=gg, f_x=fxc, f_theta=ftc)
+        ok = (not math.isnan(rr)) and fxc != 0.0 and v['x_tol'] >= 0 and v['r_tol'] >= 0 and \
+            abs(float(Fc(rr, v['theta']))) <= 1e-6 * (abs(v['u0'] * v['w0']) + abs(v['z0']) + slope)
+        return ok, Eq(gg * fxc, -ftc, scale=abs(fxc) + abs(ftc)), dict(root=rr, grad=gg, f_x=fxc, f_theta=ftc, x_tol=st.x_tol, r_tol=st.r_tol)
     h.prove('grad_times_f_x_is_minus_f_theta', assumes, Eq(v_mul(g, fx), v_sub(0.0, ft), scale=1.0), inputs=inputs, concrete=concrete,
             cap=30, order=('nlsat', 'core'))
     # the rule does not depend on f(r) = 0 being exact (it is the formula evaluated at the returned point)
-    h.prove('same_without_exact_root', ctx.all_side() + ctx.nonzero_denoms() + [fx != 0], Eq(v_mul(g, fx), v_sub(0.0, ft), scale=1.0), inputs=inputs,
+    h.prove('same_without_exact_root', ctx.all_side() + ctx.nonzero_denoms() + [fx != 0] + settings_ok, Eq(v_mul(g, fx), v_sub(0.0, ft), scale=1.0), inputs=inputs,
+            concrete=concrete, cap=30, order=('nlsat', 'core'))
+    # the combination used by the J2 return map: x_tol = 0, r_tol > 0
+    h.prove('j2_settings_x_tol_0_r_tol_positive', assumes + [xtol == 0, rtol > 0], Eq(v_mul(g, fx), v_sub(0.0, ft), scale=1.0), inputs=inputs,
+            concrete=concrete, cap=30, order=('nlsat', 'core'))
+    h.prove('default_settings_r_tol_0', assumes + [xtol > 0, rtol == 0], Eq(v_mul(g, fx), v_sub(0.0, ft), scale=1.0), inputs=inputs,
             concrete=concrete, cap=30, order=('nlsat', 'core'))
 
 
@@ -626,3 +641,52 @@ def o4_multi(h):
     for degree in ((1, 2) if h.thorough() else (1,)):
         for order in (('A', 'B'), ('B', 'A')):
             _mech_multiblock(h, order, degree)
+
+
+# ------------------------------------------------------------------------------------------------ O8 (second derivative of energy terms)
+@obligation(P, 'O8.visco_neq_energy_second_derivative', cap=240)
+def o8_neq(h):
+    """HyperViscoelastic._neq_strain_energy(Ee, props) = G_neq |dev Ee|^2: value, jax.grad and the second derivative (jax.jvp of jax.grad)
+    w.r.t. the elastic strain equal G |dev Ee|^2, 2 G dev(Ee) and 2 G dev(dE) for ALL Ee, INCLUDING states with dev(Ee) = 0 (reference
+    configuration of virgin material, pure dilatation), which get their own queries pinned at Ee = a I; the same for the dissipation
+    potential term eta |dev Dv|^2 of the same module and of MultiBranchHyperViscoelastic"""
+    from optimism.material import HyperViscoelastic as HV
+    from optimism import TensorMath, Math
+    h.encoded(HV._neq_strain_energy, HV._dissipation_potential, TensorMath.norm_of_deviator_squared, TensorMath.deviator)
+    h.bounds('Ee, dE: all real 3x3 (9 + 9 reals; symmetric and non-symmetric); G_neq, tau: all reals; pinned: Ee = a I, all real a')
+    h.outside('the full HyperViscoelastic energy (matrix logarithm and exponential of the state update): its tangent at repeated eigenvalues of the log strain is '
+              'the open known finding of C12-O8c', *NA)
+
+    def dev(A):
+        t3 = c12._third(v_sum([A[0][0], A[1][1], A[2][2]]))           # exact third (the code divides by 3)
+        return [[v_sub(A[i][j], t3) if i == j else A[i][j] for j in range(3)] for i in range(3)]
+    for tname, term, gidx in (('neq_strain_energy', HV._neq_strain_energy, 'G'), ('dissipation_potential', HV._dissipation_potential, 'eta')):
+        def fn(E, dE, G, tau, term=term):
+            props = jnp.stack([0.0 * G + 1.0, 0.0 * G + 1.0, G, tau])
+            w = lambda X: term(X, props)
+            g, hv = jax.jvp(jax.grad(w), (E,), (dE,))
+            return w(E), g, hv
+        ex = onp.eye(3) * 0.1 + onp.arange(9).reshape(3, 3) * 0.01
+        c = Case(h, fn, dict(E=ex, dE=ex.T + 0.2, G=1.5, tau=0.7), sampler=lambda rng: [c12.rnd33(rng), c12.rnd33(rng), rng.uniform(0.5, 3), rng.uniform(0.2, 2)], label=tname)
+
+        def coeff(i, tname=tname):
+            return s0(i['G']) if tname == 'neq_strain_energy' else v_mul(s0(i['G']), s0(i['tau']))
+
+        def spec(i, o, coeff=coeff):
+            E, dE, k = c12.M(i['E']), c12.M(i['dE']), coeff(i)
+            D, dD = dev(E), dev(dE)
+            return [], [Eq(s0(o[0]), v_mul(k, v_dot(c12.fl(D), c12.fl(D))), name='value_is_G_dev_ddot_dev'),
+                        Eq(c12.fl(c12.M(o[1])), [v_mul(v_mul(2.0, k), x) for x in c12.fl(D)], name='gradient_is_2G_dev'),
+                        Eq(c12.fl(c12.M(o[2])), [v_mul(v_mul(2.0, k), x) for x in c12.fl(dD)], name='second_derivative_is_2G_dev_of_direction')]
+        c.prove(tname, spec, order=('nlsat', 'core'), denoms=False, cap=60)
+
+        # pinned at dev(Ee) = 0
+        def fn0(a, dE, G, tau, term=term):
+            return fn(a * jnp.eye(3), dE, G, tau)
+        c0 = Case(h, fn0, dict(a=0.3, dE=ex.T + 0.2, G=1.5, tau=0.7), sampler=lambda rng: [rng.normal(), c12.rnd33(rng), rng.uniform(0.5, 3), rng.uniform(0.2, 2)], label=tname + '_at_spherical_state')
+
+        def spec0(i, o, coeff=coeff):
+            dE, k = c12.M(i['dE']), coeff(i)
+            return [], [Eq(s0(o[0]), 0.0, name='value_is_zero'), Eq(c12.fl(c12.M(o[1])), 0.0, name='gradient_is_zero'),
+                        Eq(c12.fl(c12.M(o[2])), [v_mul(v_mul(2.0, k), x) for x in c12.fl(dev(dE))], name='second_derivative_is_2G_dev_of_direction')]
+        c0.prove(tname + '_at_Ee_eq_aI', spec0, order=('nlsat', 'core'), denoms=False, cap=60)
